@@ -137,6 +137,7 @@ static void scenario(char **lines, int nlines) {
         vh_int("off", rc == 0 ? (long long)(dest.buffer - ring.allocation) : 0);
         vh_int("cap", rc == 0 ? (long long)dest.capacity : 0);
         vh_int("len", rc == 0 ? (long long)dest.len : 0);
+        vh_int("rem", 0); /* sizes are bytes here (no scaled rings) */
         vh_int("valid", aws_ring_buffer_is_valid(&ring));
         vh_end();
         logged_rel = s1; /* the Acquire event consumed them */
